@@ -23,9 +23,9 @@ import subprocess
 
 PROPERTY = 'C11'
 LEVEL = 'exploration'
-RULE = ("modules of 3..6 doctests drawn from 14 body kinds (bind / read a shared name, rebind a module global, leave SKIP, "
+RULE = ("modules of 3..6 doctests drawn from 16 body kinds (bind / read a shared name, rebind a module global, leave SKIP, "
         "unmet REQUIRES, report style or matching flags on, need default flags, replace sys.stdout, set warning filters to "
-        "error, emit a warning, fail after unmatched output, fail by output, env-switch dependent output/exception/want); "
+        "error, emit a warning, fail after unmatched output, fail by output, bind a name and then fail by exception / by output, env-switch dependent output/exception/want); "
         "directed histories first (every doctest twice on the same object; every switch-dependent doctest with the switch "
         "A then B and B then A on the same object; every ordered pair), then random histories (length <= 6 quick, <= 20 "
         "thorough) mixing re-used and freshly parsed objects; per module the session's default directive state (what --options builds) is empty or one of five harmless non-empty ones (flags, an empty REQUIRES set), handed as ONE dict to every doctest of a history like the front ends do.  One evaluation = one run inside a history compared with its "
@@ -60,6 +60,11 @@ BODIES = [
     ('switch_bind', ['>>> import os', '>>> T.append("{id}")', '>>> if os.environ.get("XV_SW") == "A": LEFT{id} = 1',
                      '>>> print("LEFT{id}" in dir())', 'False' if False else '{sw_left}']),
     ('gotwant_fail', ['>>> T.append("{id}")', '>>> print("a")', 'b']),
+    # binds a name and then FAILS: a re-run of the same object must not find the name either
+    ('bind_then_raise', ['>>> try:', '...     OWNNAME', '... except NameError:', '...     print("fresh")', '... else:',
+                         '...     print("stale")', '>>> OWNNAME = 1', '>>> T.append("{id}")', '>>> raise ValueError("v{id}")']),
+    ('bind_then_gotwant', ['>>> print("OWNNAME2" in dir())', '>>> OWNNAME2 = 1', '>>> T.append("{id}")', '>>> print("a")',
+                           'False', 'b']),
 ]
 # the want of switch_bind depends on the switch; it is written for switch B (name unbound -> False) so that the
 # doctest passes under B and fails under A, and a leaked binding would make it fail under B
